@@ -29,7 +29,7 @@ const VERBOSITIES = [undefined, 'OFF', 'MANDATORY', 'INFORMATION', 'DEBUG', 'deb
 
 module.exports = mk({
   id: 'C15',
-  families: ['A', 'C', 'M'],
+  families: ['A', 'C', 'M', 'S'],
   familyOpts: () => ({}),
   // the grammar families are judged under DEBUG verbosity (per-tag breakdown is the richer oracle)
   requests (leaf) {
